@@ -669,6 +669,7 @@ pub fn exec(pool: &mut Pool, ev: &mut Value) {
             }
         }
         "util" => crate::utilx::exec_util(ev),
+        "tu" => crate::utilx::exec_testutil(ev),
         // SpaceUsage of the std containers the crate implements it for (no pool object)
         "spstd" => {
             let shape = ev["shape"].as_str().unwrap_or("").to_string();
